@@ -259,6 +259,8 @@ class Engine:
         return s.check() == z3.unsat
 
     def truth(self, path, v):
+        if isinstance(v, SOpaque):
+            return fresh("opaque_truth", z3.BoolSort())
         if isinstance(v, SList):
             return z3.Length(path.heap.list_get(v)) > 0
         if isinstance(v, SDict):
@@ -350,6 +352,17 @@ class Engine:
             return z3.And(*conj)
         if isinstance(a, SConst) and isinstance(b, SConst):
             return z3.BoolVal(a.py == b.py)
+        if isinstance(a, SLower) and isinstance(b, SConst) and isinstance(b.py, str):
+            if b.py != b.py.lower():
+                return z3.BoolVal(False)
+            sl = a.s
+            conj = [sl.hi - sl.lo == len(b.py)]
+            for k, ch in enumerate(b.py):
+                c = z3.Select(sl.base.arr, sl.lo + k)
+                conj.append(z3.Or(c == ord(ch), c == ord(ch.upper())) if ch.upper() != ch else c == ord(ch))
+            return z3.And(*conj)
+        if isinstance(a, SOpaque) or isinstance(b, SOpaque):
+            return fresh("opaque_eq", z3.BoolSort())
         if isinstance(a, SList) and isinstance(b, SList):
             return path.heap.list_get(a) == path.heap.list_get(b)
         if isinstance(a, SOpaque) and isinstance(b, SOpaque) and a.t is not None and b.t is not None:
@@ -580,8 +593,22 @@ class Engine:
             return SDict(z3.If(c, a.id, b.id), a.key, a.val)
         if isinstance(a, SList) and isinstance(b, SList) and a.elem == b.elem:
             return SList(z3.If(c, a.id, b.id), a.elem, a.base or b.base)
-        if isinstance(a, SSlice) and isinstance(b, SSlice) and a.base is b.base:
-            return SSlice(a.base, z3.If(c, a.lo, b.lo), z3.If(c, a.hi, b.hi))
+        def as_slice(x, other):
+            if isinstance(x, SSlice):
+                return x
+            if isinstance(x, SChar) and x.base is not None:
+                return SSlice(x.base, x.idx, x.idx + 1, 1)
+            if isinstance(x, SConst) and x.py == "":
+                ob = other.base if isinstance(other, (SSlice, SChar)) else None
+                if ob is not None:
+                    return SSlice(ob, z3.IntVal(0), z3.IntVal(0), 0)
+            return None
+        sa, sb = as_slice(a, b), as_slice(b, a)
+        if sa is not None and sb is not None and sa.base is sb.base:
+            ml = None if sa.maxlen is None or sb.maxlen is None else max(sa.maxlen, sb.maxlen)
+            return SSlice(sa.base, z3.If(c, sa.lo, sb.lo), z3.If(c, sa.hi, sb.hi), ml)
+        if isinstance(a, SOpaque) or isinstance(b, SOpaque):
+            return SOpaque("str")
         raise EngineError(f"conditional expression over {type(a).__name__}/{type(b).__name__}")
 
     def ev_BinOp(self, path, e):
@@ -604,6 +631,8 @@ class Engine:
         raise EngineError(f"binary op {type(op).__name__} on {type(a).__name__},{type(b).__name__} (line {e.lineno})")
 
     def concat(self, path, a, b, e):
+        if isinstance(a, (SOpaque, SLower)) or isinstance(b, (SOpaque, SLower)):
+            return SOpaque("str")
         # strings built by concatenation
         if isinstance(a, (SStr, SConst)) and isinstance(b, (SStr, SConst)):
             if isinstance(a, SConst) and isinstance(b, SConst):
@@ -620,16 +649,20 @@ class Engine:
             adj = z3.Or(a.hi == b.idx, a.hi == a.lo)
             if self.valid(path, adj):
                 return SSlice(a.base, z3.If(a.hi == a.lo, b.idx, a.lo), b.idx + 1)
-            raise EngineError(f"concatenation of non-adjacent slice and char (line {e.lineno})")
+            return SOpaque("str")
         if isinstance(a, SSlice) and isinstance(b, SSlice) and b.base is a.base:
             adj = z3.Or(a.hi == b.lo, a.hi == a.lo, b.hi == b.lo)
             if self.valid(path, adj):
                 return SSlice(a.base, z3.If(a.hi == a.lo, b.lo, a.lo), z3.If(b.hi == b.lo, z3.If(a.hi == a.lo, b.lo, a.hi), b.hi))
-            raise EngineError(f"concatenation of non-adjacent slices (line {e.lineno})")
+            return SOpaque("str")
         if isinstance(a, SList) and isinstance(b, SList) and a.elem == b.elem:
             lst = SList(path.heap.new_id(), a.elem, a.base or b.base)
             path.heap.list_set(lst, z3.Concat(path.heap.list_get(a), path.heap.list_get(b)))
             return lst
+        strish = (SSlice, SChar, SConst, SOpaque, SLower)
+        if isinstance(a, strish) and isinstance(b, strish) and not (isinstance(a, SConst) and not isinstance(a.py, str)) \
+                and not (isinstance(b, SConst) and not isinstance(b.py, str)):
+            return SOpaque("str")     # a built string the engine does not track
         return None
 
     def ev_Compare(self, path, e):
@@ -697,7 +730,19 @@ class Engine:
             # substring / membership of a char in a literal string
             if isinstance(item, SChar):
                 return z3.Or(*[item.code == ord(ch) for ch in container.py]) if container.py else z3.BoolVal(False)
+            if isinstance(item, SSlice):
+                subs = {container.py[i:j] for i in range(len(container.py) + 1) for j in range(i, len(container.py) + 1)}
+                return z3.Or(*[self.eq(path, item, SConst(w)) for w in sorted(subs)])
+            if isinstance(item, SOpaque):
+                return fresh("opaque_in", z3.BoolSort())
             return z3.Contains(z3.StringVal(container.py), self.to_str(path, item))
+        if isinstance(container, SSlice) and isinstance(item, SConst) and isinstance(item.py, str) and len(item.py) == 1:
+            if container.maxlen is None:
+                raise EngineError(f"'in' on a slice of unbounded length (line {e.lineno})")
+            return z3.Or(*[z3.And(container.lo + j < container.hi, z3.Select(container.base.arr, container.lo + j) == ord(item.py))
+                           for j in range(container.maxlen)]) if container.maxlen else z3.BoolVal(False)
+        if isinstance(container, SOpaque):
+            return fresh("opaque_in", z3.BoolSort())
         if isinstance(container, SStr):
             return z3.Contains(container.t, self.to_str(path, item))
         if isinstance(container, SList):
@@ -791,7 +836,14 @@ class Engine:
                 return z3.If(t < 0, 0, z3.If(t > n, n, t))
             a = clamp(sl.lower, z3.IntVal(0))
             b = clamp(sl.upper, n)
-            return SSlice(base.base, base.lo + a, base.lo + z3.If(b < a, a, b))
+            ml = None
+            lo_c = sl.lower.value if isinstance(sl.lower, ast.Constant) else (0 if sl.lower is None else None)
+            up_c = sl.upper.value if isinstance(sl.upper, ast.Constant) else None
+            if isinstance(lo_c, int) and isinstance(up_c, int) and lo_c >= 0 and up_c >= 0:
+                ml = max(0, up_c - lo_c)
+            if base.maxlen is not None:
+                ml = base.maxlen if ml is None else min(ml, base.maxlen)
+            return SSlice(base.base, base.lo + a, base.lo + z3.If(b < a, a, b), ml)
         if isinstance(base, (SStr, SConst)):
             s = self.to_str(path, base)
             n = z3.Length(s)
@@ -820,6 +872,8 @@ class Engine:
             lst = SList(path.heap.new_id(), base.elem, base.base)
             path.heap.list_set(lst, z3.SubSeq(seq, a, z3.If(b < a, 0, b - a)))
             return lst
+        if isinstance(base, SOpaque):
+            return SOpaque("str")
         raise EngineError(f"slice of {type(base).__name__}")
 
     def ev_Attribute(self, path, e):
@@ -905,8 +959,10 @@ class Engine:
             return self.new_list(path, [SConst(x) for x in v.py], elem=kind.split(":")[1] if ":" in kind else "str").id
         if k == "dict" and isinstance(v, SDict):
             return v.id
-        if k == "opaque" and isinstance(v, SOpaque) and v.t is not None:
-            return v.t
+        if k == "opaque":
+            if isinstance(v, SOpaque) and v.t is not None:
+                return v.t
+            return fresh("opaque_store", z3.IntSort())
         raise EngineError(f"cannot store {type(v).__name__} into field of kind {kind}")
 
     def write_field(self, path, o, name, v):
@@ -1149,6 +1205,33 @@ class Engine:
         if e.args:
             raise EngineError("strip(chars)")
         return SStr(self.c.strip(s.t))
+
+    # ---- scanned-slice methods
+    def m_SSlice_lower(self, path, s, e):
+        return SLower(s)
+
+    def _opaque_str(self, path, s, e):
+        for a in e.args:
+            self.ev(path, a)
+        return SOpaque("str")
+    m_SSlice_strip = m_SSlice_rstrip = m_SSlice_lstrip = m_SSlice_upper = m_SSlice_ljust = _opaque_str
+    m_SOpaque_strip = m_SOpaque_rstrip = m_SOpaque_lstrip = m_SOpaque_lower = m_SOpaque_upper = m_SOpaque_ljust = _opaque_str
+    m_SLower_strip = m_SLower_rstrip = _opaque_str
+
+    def m_SOpaque_isspace(self, path, s, e):
+        return SBool(fresh("opaque_isspace", z3.BoolSort()))
+
+    def m_SSlice_isspace(self, path, s, e):
+        if s.maxlen is None or s.maxlen > 8:
+            return SBool(fresh("isspace", z3.BoolSort()))
+        n = s.hi - s.lo
+        conj = [n >= 1]
+        for j in range(s.maxlen):
+            conj.append(z3.Implies(j < n, self.c.isspace_char(z3.Select(s.base.arr, s.lo + j))))
+        return SBool(z3.And(*conj))
+
+    def m_SChar_isspace(self, path, ch, e):
+        return SBool(self.c.isspace_char(ch.code))
 
     # ---- char methods
     def m_SChar_isalpha(self, path, ch, e):
